@@ -364,79 +364,61 @@ class DynGraph(nx.Graph):
         if not isinstance(t, list):
             t = [t, t]
 
-        for idt in [t[0]]:
-            if self.has_edge(u, v) and not self.edge_removal:
-                continue
-            else:
-                if idt not in self.time_to_edge:
-                    self.time_to_edge[idt] = {(u, v, "+"): None}
-                else:
-                    if (u, v, "+") not in self.time_to_edge[idt]:
-                        self.time_to_edge[idt][(u, v, "+")] = None
-
         if e is not None and self.edge_removal:
-
             t[1] = e - 1
-            if e not in self.time_to_edge:
-                self.time_to_edge[e] = {(u, v, "-"): None}
-            else:
-                self.time_to_edge[e][(u, v, "-")] = None
 
         # add the interaction
         datadict = self._adj[u].get(v, self.edge_attr_dict_factory())
+        appeared = range(t[0], t[1] + 1)  # instants at which the interaction becomes present
 
         if 't' in datadict:
             app = datadict['t']
             max_end = app[-1][1]
 
-            if max_end == app[-1][0] and t[0] == app[-1][0] + 1:
+            if t[1] <= max_end:
+                # the span is already covered by the latest run
+                appeared = range(0)
 
-                app[-1] = [app[-1][0], t[1]]
-                if app[-1][0] + 1 in self.time_to_edge and (u, v, "+") in self.time_to_edge[app[-1][0] + 1]:
-                    del self.time_to_edge[app[-1][0] + 1][(u, v, "+")]
+            elif t[0] <= max_end + 1:
+                # the span overlaps or touches the latest run: extend it
+                appeared = range(max_end + 1, t[1] + 1)
+                if self.edge_removal:
+                    self.__drop_event(max_end + 1, u, v, "-")
+                    if e is not None or app[-1][0] != max_end:
+                        self.__log_event(t[1] + 1, u, v, "-")
+                app[-1][1] = t[1]
 
             else:
-                if t[0] <= max_end < t[1]:
-                    app[-1][1] = t[1]
-                    if max_end + 1 in self.time_to_edge:
-                        if self.edge_removal:
-                            del self.time_to_edge[max_end + 1][(u, v, "-")]
-                        del self.time_to_edge[t[0]][(u, v, "+")]
-
-                elif max_end == t[0] - 1:
-                    if max_end + 1 in self.time_to_edge and (u, v, "+") in self.time_to_edge[max_end + 1]:
-                        del self.time_to_edge[max_end + 1][(u, v, "+")]
-                        if self.edge_removal:
-                            if max_end + 1 in self.time_to_edge and (u, v, '-') in self.time_to_edge[max_end + 1]:
-                                del self.time_to_edge[max_end + 1][(u, v, '-')]
-                            if t[1] + 1 in self.time_to_edge:
-                                self.time_to_edge[t[1] + 1][(u, v, "-")] = None
-                            else:
-                                self.time_to_edge[t[1] + 1] = {(u, v, "-"): None}
-
-                    app[-1][1] = t[1]
-                else:
-                    app.append(t)
+                app.append(t)
+                if self.edge_removal:
+                    self.__log_event(t[0], u, v, "+")
+                    if e is not None:
+                        self.__log_event(e, u, v, "-")
         else:
             datadict['t'] = [t]
+            self.__log_event(t[0], u, v, "+")
+            if e is not None and self.edge_removal:
+                self.__log_event(e, u, v, "-")
 
-        if e is not None:
-            span = range(t[0], t[1] + 1)
-            for idt in span:
-                if idt not in self.snapshots:
-                    self.snapshots[idt] = 1
-                else:
-                    self.snapshots[idt] += 1
-        else:
-            for idt in t:
-                if idt is not None:
-                    if idt not in self.snapshots:
-                        self.snapshots[idt] = 1
-                    else:
-                        self.snapshots[idt] += 1
+        for idt in appeared:
+            if idt not in self.snapshots:
+                self.snapshots[idt] = 1
+            else:
+                self.snapshots[idt] += 1
 
         self._adj[u][v] = datadict
         self._adj[v][u] = datadict
+
+    def __log_event(self, idt, u, v, op):
+        if idt not in self.time_to_edge:
+            self.time_to_edge[idt] = {}
+        if (v, u, op) not in self.time_to_edge[idt]:
+            self.time_to_edge[idt][(u, v, op)] = None
+
+    def __drop_event(self, idt, u, v, op):
+        if idt in self.time_to_edge:
+            self.time_to_edge[idt].pop((u, v, op), None)
+            self.time_to_edge[idt].pop((v, u, op), None)
 
     def add_interactions_from(self, ebunch, t=None, e=None):
         """Add all the interaction in ebunch at time t.
@@ -1170,10 +1152,10 @@ class DynGraph(nx.Graph):
         {0: 3, 1: 3, 2: 3}
         """
         if t is None:
-            return {k: v / 2 for k, v in self.snapshots.items()}
+            return dict(self.snapshots)
         else:
             try:
-                return self.snapshots[t] / 2
+                return self.snapshots[t]
             except KeyError:
                 return 0
 
